@@ -69,13 +69,38 @@ func c11RoundTrip(w *rt.W, y int64, m, d int) {
 
 // c11Decode feeds arbitrary bytes to UnmarshalBinary and judges the outcome.
 func c11Decode(w *rt.W, data []byte) (accepted bool) {
-	before := date.New(1234, 5, 6)
+	accepted = c11DecodeInto(w, data, date.New(1234, 5, 6))
+	// the receiver is not always a fresh or unrelated variable: the zero date, the very date the payload
+	// starts with (a refresh), the same month and day in a leap year, a neighbouring day
+	if len(data) >= 7 && (len(data) != 7 || (data[6] >= 28 && data[4]&3 == 0) || data[6] == 0 || data[5] == 0 || data[5] > 12 || data[4]&15 == 0) {
+		y := int64(int32(uint32(data[1])<<24 | uint32(data[2])<<16 | uint32(data[3])<<8 | uint32(data[4])))
+		m, d := int(data[5]), int(data[6])
+		recvs := []date.Date{{}, date.New(2000, 2, 29), date.New(2024, 12, 31)}
+		if ref.ValidYMD(y, m, d) {
+			recvs = append(recvs, date.New(int(y), date.Month(m), d))
+		}
+		if m >= 1 && m <= 12 && d >= 1 && ref.ValidYMD(2000, m, d) {
+			recvs = append(recvs, date.New(2000, date.Month(m), d), date.New(-400, date.Month(m), d))
+		}
+		if m >= 1 && m <= 12 && d >= 2 && ref.ValidYMD(y, m, d-1) {
+			recvs = append(recvs, date.New(int(y), date.Month(m), d-1))
+		}
+		for _, r := range recvs {
+			if c11DecodeInto(w, data, r) != accepted {
+				w.Fail("verdict-depends-on-receiver", "decode", rt.Args("data", data, "receiver", r.String()), fmt.Sprint(!accepted), fmt.Sprint(accepted), "whether a payload is accepted must not depend on what the receiver held")
+			}
+		}
+	}
+	return accepted
+}
+
+func c11DecodeInto(w *rt.W, data []byte, before date.Date) (accepted bool) {
 	recv := before
 	in := append([]byte(nil), data...)
 	err := recv.UnmarshalBinary(in)
 	w.Eval(1)
 	fail := func(key, got, want string) {
-		w.Fail(key, "decode", rt.Args("data", data), got, want, "UnmarshalBinary outcome violates strictness / real-calendar-date requirement")
+		w.Fail(key, "decode", rt.Args("data", data, "receiver", before.String()), got, want, "UnmarshalBinary outcome violates strictness / real-calendar-date requirement")
 	}
 	if !bytes.Equal(in, data) {
 		fail("input-modified", fmt.Sprintf("%x", in), fmt.Sprintf("%x", data))
